@@ -31,6 +31,9 @@ type Cfg struct {
 	Bank       []int64  `json:"bankrolls"`
 	Deck       []string `json:"deck"`
 	Theme      string   `json:"deck_theme,omitempty"`
+	// ConstructorDeck: hand the engine the slice returned by its own deck
+	// constructor (what table/ does) and keep whatever order Start() shuffles it to
+	ConstructorDeck bool `json:"constructor_deck,omitempty"`
 }
 
 // Positions exactly as table/internal.go derives them from the seat manager.
@@ -78,6 +81,9 @@ func (c *Cfg) Options() *pf.GameOptions {
 	o.Limit = c.Limit
 	o.HoleCardsCount, o.RequiredHoleCardsCount = c.Hole, c.Req
 	o.Deck = append([]string{}, c.Deck...)
+	if c.ConstructorDeck {
+		o.Deck = baseDeck(c.ShortDeck)
+	}
 	for i := 0; i < c.N; i++ {
 		o.Players = append(o.Players, &pf.PlayerSetting{Bankroll: c.Bank[i], Positions: c.Positions(i)})
 	}
